@@ -12,10 +12,12 @@ import (
 	"hash/fnv"
 	"os"
 	"path/filepath"
+	"runtime"
 	"sort"
 	"strconv"
 	"strings"
 	"sync"
+	"sync/atomic"
 	"testing"
 	"time"
 
@@ -312,6 +314,7 @@ func RunProp[C any](t *testing.T, prop string, weight float64, gen func(*rapid.T
 	}()
 	rapid.Check(t, func(rt *rapid.T) {
 		c := gen(rt)
+		setCurrent(prop, c)
 		o := safeCheck(check, c)
 		if msg := Record(prop, c, o); msg != "" {
 			rt.Fatalf("%s", msg)
@@ -327,6 +330,7 @@ func RunEnum[C any](t *testing.T, prop string, next func() (C, bool), check func
 		if !ok {
 			return
 		}
+		setCurrent(prop, c)
 		o := safeCheck(check, c)
 		if msg := Record(prop, c, o); msg != "" {
 			if os.Getenv("VERIF_TRIAGE") != "" {
@@ -490,8 +494,69 @@ func Flush() {
 }
 
 // Main is the standard TestMain body.
+// ---------- watchdog: a case that never finishes or eats the memory ----------
+
+type current struct {
+	prop  string
+	c     interface{}
+	start time.Time
+}
+
+var cur atomic.Value // current
+
+// StuckAsViolation: for properties about termination (C08) a stuck case is a violation; elsewhere the run is
+// inconclusive (the driver reports trouble), but the case is saved either way.
+var StuckAsViolation = false
+
+func setCurrent(prop string, c interface{}) { cur.Store(current{prop, c, time.Now()}) }
+
+func envInt(name string, def int) int {
+	if v, err := strconv.Atoi(os.Getenv(name)); err == nil && v > 0 {
+		return v
+	}
+	return def
+}
+
+func watchdog() {
+	maxS, maxGB := envInt("VERIF_STUCK_S", 180), envInt("VERIF_HEAP_GB", 5)
+	var ms runtime.MemStats
+	for range time.Tick(500 * time.Millisecond) {
+		v, ok := cur.Load().(current)
+		if !ok {
+			continue
+		}
+		runtime.ReadMemStats(&ms)
+		why := ""
+		if time.Since(v.start) > time.Duration(maxS)*time.Second {
+			why = fmt.Sprintf("one case has been running for more than %d s", maxS)
+		} else if ms.HeapAlloc > uint64(maxGB)<<30 {
+			why = fmt.Sprintf("the heap grew beyond %d GiB while one case was running", maxGB)
+		}
+		if why == "" {
+			continue
+		}
+		cb, err := json.MarshalIndent(v.c, "  ", " ")
+		if err != nil {
+			cb, _ = json.Marshal(fmt.Sprintf("%#v", v.c))
+		}
+		rf := ReplayFile{Property: propID, Prop: v.prop, Msg: "STUCK: " + why, Case: cb}
+		b, _ := json.MarshalIndent(rf, "", " ")
+		dir := replayDir()
+		os.MkdirAll(dir, 0o755)
+		path := filepath.Join(dir, fmt.Sprintf("stuck-%s-%016x.json", v.prop, hashKey(string(cb))))
+		os.WriteFile(path, append(b, '\n'), 0o644)
+		if StuckAsViolation {
+			fmt.Printf("FOUND property=%s prop=%s replay=%s\n", propID, v.prop, path)
+			os.Exit(1)
+		}
+		fmt.Printf("STUCK property=%s prop=%s case=%s (%s)\n", propID, v.prop, path, why)
+		os.Exit(3)
+	}
+}
+
 func Main(m *testing.M, id string) {
 	Init(id)
+	go watchdog()
 	code := m.Run()
 	Flush()
 	os.Exit(code)
